@@ -103,4 +103,47 @@ theorem spec_binop_generated [FloatOps] (dbg : Bool) (t : Spec.ITy) (op : Spec.B
   case ge => cases h; exact key _ rfl (by simp only [cvS, hA, hB])
   case and => cases h
   case or => cases h
+
+/-! ### floats: the oracle and the tables apply the same `FloatOps` function -/
+
+/-- the SSA value of a `Spec` value of a float type (or a boolean) -/
+def cvF : Spec.Val → Option CVal
+  | .f32 x => some (CVal.f32 x)
+  | .f64 x => some (CVal.f64 x)
+  | .bool b => some (CVal.ofBool b)
+  | _ => none
+
+theorem spec_float_binop_generated [F : FloatOps] (dbg : Bool) (op : Spec.BinOp) :
+    (∀ (a b : BitVec 32) (v : Spec.Val), Spec.f32Arith op a b = .ok v →
+      ∃ i cv, lower_binop dbg (genOpS op) (.Primitive (.Float .F32)) = .ok i ∧ cvF v = some cv
+        ∧ runInstr dbg i (operands (CVal.f32 a) (CVal.f32 b)) = .ok cv)
+    ∧ (∀ (a b : BitVec 64) (v : Spec.Val), Spec.f64Arith op a b = .ok v →
+      ∃ i cv, lower_binop dbg (genOpS op) (.Primitive (.Float .F64)) = .ok i ∧ cvF v = some cv
+        ∧ runInstr dbg i (operands (CVal.f64 a) (CVal.f64 b)) = .ok cv) := by
+  constructor
+  · intro a b v h
+    have key : ∀ cv, C01.floatSpec32 (genOpS op) a b = some cv → cvF v = some cv →
+        ∃ i cv, lower_binop dbg (genOpS op) (.Primitive (.Float .F32)) = .ok i ∧ cvF v = some cv
+          ∧ runInstr dbg i (operands (CVal.f32 a) (CVal.f32 b)) = .ok cv := by
+      intro cv h1 h2
+      obtain ⟨i, _, hi, hr⟩ := (C01.float_op_same dbg (genOpS op)).1 a b cv h1
+      exact ⟨i, cv, hi, h2, hr⟩
+    cases op <;> simp only [Spec.f32Arith, reduceCtorEq] at h <;> (try cases h) <;> exact key _ rfl rfl
+  · intro a b v h
+    have key : ∀ cv, C01.floatSpec64 (genOpS op) a b = some cv → cvF v = some cv →
+        ∃ i cv, lower_binop dbg (genOpS op) (.Primitive (.Float .F64)) = .ok i ∧ cvF v = some cv
+          ∧ runInstr dbg i (operands (CVal.f64 a) (CVal.f64 b)) = .ok cv := by
+      intro cv h1 h2
+      obtain ⟨i, _, hi, hr⟩ := (C01.float_op_same dbg (genOpS op)).2 a b cv h1
+      exact ⟨i, cv, hi, h2, hr⟩
+    cases op <;> simp only [Spec.f64Arith, reduceCtorEq] at h <;> (try cases h) <;> exact key _ rfl rfl
+
+theorem spec_float_neg_generated [F : FloatOps] (dbg : Bool) :
+    (∀ (a : BitVec 32) (v : Spec.Val), Spec.negate (.f32 a) = .ok v → ∃ cv, cvF v = some cv ∧ cg_Negate dbg (CVal.f32 a) = .ok cv)
+    ∧ (∀ (a : BitVec 64) (v : Spec.Val), Spec.negate (.f64 a) = .ok v → ∃ cv, cvF v = some cv ∧ cg_Negate dbg (CVal.f64 a) = .ok cv) := by
+  constructor
+  · intro a v h; simp only [Spec.negate] at h; cases h
+    exact ⟨_, rfl, (C01.float_neg_same dbg).1 a⟩
+  · intro a v h; simp only [Spec.negate] at h; cases h
+    exact ⟨_, rfl, (C01.float_neg_same dbg).2 a⟩
 end RotoV.C01SpecOps
